@@ -397,6 +397,11 @@ def run(ctx, rep):
     from sa import dtypes
     rep.rule('C08.T', "times / dates given as Python numbers enter the computation at the requested precision: a tensor built from them without a dtype (torch's default float32) is neither computed with nor converted afterwards")
     dtypes.check_default_precision(ctx, rep, 'C08.T', ['torchtree.evolution.coalescent'], 3)
+    rep.rule('C08.B', "the density of one tree is a function of that tree and its parameters only: no whole-tensor reduction (no axis named) of a value that can carry a sample dimension in the coalescent module (C10.D machinery)")
+    from props import c10
+    from sa.report import RuleProxy
+    nb = c10.check_whole_reductions(ctx, RuleProxy(rep, 'C08.B', 'reductions::'), only=lambda mname: mname == MOD)
+    rep.ok('C08.B', 'reductions::coalescent::scanned', '', {'reductions_without_axis_classified': nb})
     rep.explanation = (
         "The event bookkeeping that every coalescent implementation repeats (ten copies) is extracted by dataflow role — the vector handed to argsort, "
         "the permutation gathered into heights and marks, the mark vector's parts and their order against the height vector's parts, the lineage "
